@@ -46,11 +46,18 @@ def handle(c):
         init = InitialStateContainer.from_ordered_list(states)
         desc = RepetitionCodeDescription.from_initial_state(init, qubit_refocusing=c['refocus'])
         rounds = list(c['rounds'])
+        def make_kernel():
+            return RepetitionExperimentKernel(rounds=rounds, heralded_initialization=True, qutrit_calibration_points=True,
+                                              involved_data_qubit_ids=desc.data_qubit_ids, involved_ancilla_qubit_ids=desc.ancilla_qubit_ids,
+                                              experiment_repetitions=1)
+        # the two encodings are used together on ONE description object, in either order (the kernel must not disturb the description
+        # the circuit is then built from, and the other way round)
+        if c.get('kernel_first'):
+            kernel = make_kernel()
         circuit = construct_repetition_code_multi_round_circuit(qec_cycles=rounds, description=desc, initial_state=init)
         ops = circuit.operations
-        kernel = RepetitionExperimentKernel(rounds=rounds, heralded_initialization=True, qutrit_calibration_points=True,
-                                            involved_data_qubit_ids=desc.data_qubit_ids, involved_ancilla_qubit_ids=desc.ancilla_qubit_ids,
-                                            experiment_repetitions=1)
+        if not c.get('kernel_first'):
+            kernel = make_kernel()
         out = {'data': ints(desc.data_qubit_indices), 'anc': ints(desc.ancilla_qubit_indices), 'L': ints(kernel.kernel_cycle_length),
                'n_ops': len(ops), 'obs': []}
         for qi in desc.ancilla_qubit_indices:
